@@ -360,7 +360,7 @@ def run_stream_job(job: dict, res: JobResult) -> None:
         found: dict[str, tuple[Ctx, dict]] = {}
         obs_states: set = set()
 
-        def check(ctx: Ctx, obs: dict) -> None:
+        def check(ctx: Ctx, obs: dict) -> bool:
             res.evaluations += 1
             bad = oracle_stream(cfg, obs)
             res.outcome(f"stream-{cfg['peer']}-ok" if bad is None else "VIOLATION:" + bad)
@@ -370,8 +370,9 @@ def run_stream_job(job: dict, res: JobResult) -> None:
                 res.nontrivial.add(digest(("stream", cfg["api"], tuple(cfg["sizes"]), cfg["cap"], cfg["peer"], cancel, key)))
             if bad is not None and (bad not in found or len(ctx.choices) < len(found[bad][0].choices)):
                 found[bad] = (ctx, obs)
+            return bad is not None
 
-        stats = explore(lambda ctx: run_stream(ctx, cfg), bound=bound, check=check, max_runs=30000)
+        stats = explore(lambda ctx: run_stream(ctx, cfg), bound=bound, check=check, max_runs=30000, violation_budget=300)
         res.transitions += stats["points"]
         res.states += len(obs_states)
         if stats["cap_hit"]:
